@@ -292,7 +292,7 @@ func init() {
 				cfg := s.config()
 				cleanup := cfg.Prepare()
 				defer cleanup()
-				return hx.ExploreScenario(c, "C10", s.name(), sched.Options{Bound: s.bound, MaxSteps: 60000, BoundAll: true, NoEarlyClock: true}, s.body(cfg), s.judge)
+				return hx.ExploreScenario(c, "C10", s.name(), sched.Options{Bound: s.bound, MaxSteps: 60000, BoundAll: true, NoEarlyClock: true, HoldBack: true}, s.body(cfg), s.judge)
 			}})
 		}
 		return out
